@@ -232,7 +232,8 @@ def _harness(eng, sp):
         return coverage_replay(eng, sp)
     try:
         if mode == "seeded":
-            g1 = make(sp, 7)
+            seed = 0 if (_maxv(sp["num_jobs"]) + _maxv(sp["num_machines"])) % 2 == 0 else 7   # 0 is a seed like any other
+            g1 = make(sp, seed)
             first = [g1.generate() for _ in range(sp["n"])]
             for inst in first:
                 eng.reachable("transition")
@@ -240,7 +241,7 @@ def _harness(eng, sp):
             names = [i.name for i in first]
             if len(set(names)) != len(names):
                 eng.fail("C19/name-reused", f"{names}")
-            g2 = make(sp, 7)
+            g2 = make(sp, seed)
             second = [g2.generate() for _ in range(sp["n"])]
             for a, b in zip(first, second):
                 same_instance(eng, a, b, "C19/same-seed")
@@ -250,10 +251,15 @@ def _harness(eng, sp):
             got = list(g)
             if len(got) != sp["n"]:
                 eng.fail("C19/iteration-does-not-yield-iteration_limit-instances", f"{len(got)} vs {sp['n']}")
-            again = list(g)
+            again = []
+            extra = []
+            for inst_ in g:                    # direct generate() calls inside the loop must not eat into the limit
+                again.append(inst_)
+                if len(extra) < 1:
+                    extra.append(g.generate())
             if len(again) != sp["n"]:
                 eng.fail("C19/second-iteration-does-not-yield-iteration_limit-instances", f"{len(again)} vs {sp['n']}")
-            names = [i.name for i in got + again]
+            names = [i.name for i in got + again + extra]
             if len(set(names)) != len(names):
                 eng.fail("C19/name-reused", f"{names}")
             for inst in got + again:
